@@ -219,6 +219,83 @@ pub fn default_seed() -> u64 {
     std::env::var("VERIF_SEED").ok().and_then(|s| s.trim().parse::<u64>().ok()).unwrap_or(20_260_924)
 }
 
+// ------------------------------------------------------------------ wedge watchdog
+//
+// A run is a pure computation over simulated time: milliseconds of wall clock. A run that does not
+// return at all (the code under test blocks the thread for real -- a lock taken twice on one thread
+// -- or spins without yielding) cannot be judged by an oracle that runs afterwards. The watchdog
+// turns it into a reported violation of the property being checked (class `<id>:run-wedged`) with a
+// replay file, instead of a check that hangs. Wall clock is used only for this "never returns"
+// verdict (limit: VERIF_WEDGE_SECS, default 180 s; the slowest legitimate run is < 2 s).
+
+struct WatchSlot {
+    since: Instant,
+    family: String,
+    index: Option<u64>,
+    plan: Option<Value>,
+    sched: Sched,
+}
+static WATCH: std::sync::Mutex<BTreeMap<u64, WatchSlot>> = std::sync::Mutex::new(BTreeMap::new());
+static WATCH_NEXT: std::sync::atomic::AtomicU64 = std::sync::atomic::AtomicU64::new(0);
+
+pub struct WatchGuard(u64);
+impl Drop for WatchGuard {
+    fn drop(&mut self) {
+        WATCH.lock().unwrap_or_else(|e| e.into_inner()).remove(&self.0);
+    }
+}
+fn watch(family: &str, index: Option<u64>, plan: Option<&Value>, sched: &Sched) -> WatchGuard {
+    let id = WATCH_NEXT.fetch_add(1, std::sync::atomic::Ordering::Relaxed);
+    WATCH.lock().unwrap_or_else(|e| e.into_inner()).insert(id, WatchSlot { since: Instant::now(), family: family.to_string(), index, plan: plan.cloned(), sched: sched.clone() });
+    WatchGuard(id)
+}
+fn wedge_limit() -> f64 {
+    std::env::var("VERIF_WEDGE_SECS").ok().and_then(|s| s.parse().ok()).unwrap_or(180.0)
+}
+/// The oldest run that has been executing for longer than the limit, if any.
+fn wedged() -> Option<(String, Option<u64>, Option<Value>, Sched, f64)> {
+    let w = WATCH.lock().unwrap_or_else(|e| e.into_inner());
+    let lim = wedge_limit();
+    w.values().filter(|s| s.since.elapsed().as_secs_f64() > lim).max_by(|a, b| a.since.elapsed().cmp(&b.since.elapsed())).map(|s| (s.family.clone(), s.index, s.plan.clone(), s.sched.clone(), s.since.elapsed().as_secs_f64()))
+}
+/// Watchdog for a batch: never returns normally once a wedged run is found (writes the replay and
+/// the evidence, prints the VIOLATION line, exits 1).
+fn batch_watchdog(check: &Check, o: &Opts, stop: &std::sync::atomic::AtomicBool, t0: Instant) {
+    while !stop.load(std::sync::atomic::Ordering::Relaxed) {
+        std::thread::sleep(std::time::Duration::from_millis(500));
+        let Some((famname, index, plan, sched, secs)) = wedged() else { continue };
+        let Some(fam) = check.families.iter().find(|f| f.name() == famname) else { continue };
+        let (plan, sched) = match (plan, index) {
+            (Some(p), _) => (p, sched),
+            (None, Some(i)) => {
+                let (p, seed) = fam.generate(mix(o.seed, &format!("{}/{}", check.property, fam.name()), 0), i, o.tier);
+                (p, Sched::Seeded(seed))
+            }
+            _ => continue,
+        };
+        let class = format!("{}:run-wedged", check.property);
+        let msg = format!("the run did not return within {secs:.0} s of wall clock (every other run takes milliseconds): the code under test blocked its thread or spins without yielding");
+        let rec = Outcome { violations: vec![Violation { class: class.clone(), msg: msg.clone() }], note: "wedged".into(), ..Default::default() };
+        let m = Minimised { plan, sched_seed: 0, sched, decisions: vec![], outcome: rec, candidates_tried: 0 };
+        let path = write_replay(&o.verif_dir.join("replays"), check, fam.as_ref(), o, index.unwrap_or(0), &class, &m);
+        println!("violation class={} family={} run={:?} : {}", class, fam.name(), index, msg);
+        println!("VIOLATION property={} replay={}", check.property, path.display());
+        if o.write_evidence {
+            let ev = json!({
+                "property_id": check.property, "tier": o.tier.name(), "seed": o.seed, "level": check.level,
+                "coverage": {"evaluations": 0, "distinct_nontrivial": 0, "rule": "batch aborted by the wedge watchdog: a run never returned; see the replay file", "samples": [m.plan], "exhaustive": false,
+                    "components_real": check.real, "components_stub": check.stub, "engine": check.engine},
+                "assumptions": check.assumptions, "wall_s": t0.elapsed().as_secs_f64(), "violations": 1,
+            });
+            let dir = o.verif_dir.join("evidence");
+            std::fs::create_dir_all(&dir).ok();
+            std::fs::write(dir.join(format!("{}.json", check.property)), serde_json::to_string_pretty(&ev).unwrap()).ok();
+        }
+        println!("{} {} seed={} violations=1 exit=1 (aborted by the wedge watchdog)", check.property, o.tier.name(), o.seed);
+        std::process::exit(1);
+    }
+}
+
 fn run_family(check: &Check, fam: &dyn Family, o: &Opts) -> (Agg, Vec<(u64, u64)>) {
     let n = o.runs_override.unwrap_or_else(|| fam.runs(o.tier));
     let threads = o.threads.max(1);
@@ -233,7 +310,10 @@ fn run_family(check: &Check, fam: &dyn Family, o: &Opts) -> (Agg, Vec<(u64, u64)
                     let mut i = w as u64;
                     while i < n {
                         let (plan, seed) = fam.generate(mix(o.seed, &tag, 0), i, o.tier);
-                        let out = exec_caught(check.property, fam, &plan, &Sched::Seeded(seed), false);
+                        let out = {
+                            let _g = watch(fam.name(), Some(i), None, &Sched::Seeded(seed));
+                            exec_caught(check.property, fam, &plan, &Sched::Seeded(seed), false)
+                        };
                         a.evaluations += 1;
                         a.steps += out.steps;
                         a.sim_ms += out.sim_ms;
@@ -423,6 +503,8 @@ pub struct Minimised {
 /// of a handful of schedule seeds; then record the decision list and shorten it.
 pub fn minimise(property: &str, fam: &dyn Family, plan: &Value, seed: u64, class: &str, budget_s: f64) -> Minimised {
     let t0 = Instant::now();
+    // debugging aid: VERIF_NO_MINIMISE=1 keeps the plan as generated
+    let budget_s = if std::env::var_os("VERIF_NO_MINIMISE").is_some() { -1.0 } else { budget_s };
     let has = |o: &Outcome| o.violations.iter().any(|v| v.class == class);
     let mut cur = plan.clone();
     let mut cur_seed = seed;
@@ -442,6 +524,7 @@ pub fn minimise(property: &str, fam: &dyn Family, plan: &Value, seed: u64, class
             seeds.extend(alt.iter().copied());
             for s in seeds {
                 tried += 1;
+                let _g = watch(fam.name(), None, Some(&c), &Sched::Seeded(s));
                 let o = exec_caught(property, fam, &c, &Sched::Seeded(s), false);
                 if has(&o) {
                     cur = c.clone();
@@ -459,12 +542,16 @@ pub fn minimise(property: &str, fam: &dyn Family, plan: &Value, seed: u64, class
         }
     }
     // record and shorten the schedule
-    let rec = exec_caught(property, fam, &cur, &Sched::Seeded(cur_seed), true);
+    let rec = {
+        let _g = watch(fam.name(), None, Some(&cur), &Sched::Seeded(cur_seed));
+        exec_caught(property, fam, &cur, &Sched::Seeded(cur_seed), true)
+    };
     if !fam.records_decisions() || rec.decisions.is_empty() {
         return Minimised { plan: cur, sched_seed: cur_seed, sched: Sched::Seeded(cur_seed), decisions: vec![], outcome: rec, candidates_tried: tried };
     }
     let full = rec.decisions.clone();
     let repro = |d: &[u32]| -> Option<Outcome> {
+        let _g = watch(fam.name(), None, Some(&cur), &Sched::Recorded(d.to_vec()));
         let o = exec_caught(property, fam, &cur, &Sched::Recorded(d.to_vec()), false);
         if has(&o) { Some(o) } else { None }
     };
@@ -536,6 +623,22 @@ pub fn replay(check: &Check, path: &Path) -> i32 {
     } else {
         Sched::Seeded(v["schedule"]["seeded"].as_u64().unwrap_or(0))
     };
+    // a replayed wedge wedges again: report it from a watchdog thread
+    {
+        let (prop, file, class) = (check.property.to_string(), path.display().to_string(), class.clone());
+        std::thread::spawn(move || loop {
+            std::thread::sleep(std::time::Duration::from_millis(500));
+            if let Some((_, _, _, _, secs)) = wedged() {
+                println!("replay {file}: class={class} the run did not return within {secs:.0} s");
+                if class.ends_with(":run-wedged") {
+                    println!("VIOLATION property={prop} replay={file}");
+                    std::process::exit(1);
+                }
+                std::process::exit(2);
+            }
+        });
+    }
+    let _g = watch(fam.name(), None, Some(&v["plan"]), &sched);
     let out = exec_caught(check.property, fam.as_ref(), &v["plan"], &sched, false);
     let want = v["expect"]["digest"].as_str().unwrap_or("");
     let got = format!("{:016x}", out.digest);
@@ -576,6 +679,9 @@ pub fn run_check(check: &Check, o: &Opts) -> i32 {
     let mut known_printed: Vec<String> = vec![];
     let mut other_prop: BTreeMap<String, u64> = BTreeMap::new();
     let mut exhaustive = true;
+    let stop_watchdog = std::sync::atomic::AtomicBool::new(false);
+    let exit = std::thread::scope(|scope| {
+    scope.spawn(|| batch_watchdog(check, o, &stop_watchdog, t0));
     for fam in &check.families {
         if let Some(f) = &o.only_family {
             if f != fam.name() {
@@ -687,6 +793,10 @@ pub fn run_check(check: &Check, o: &Opts) -> i32 {
         "{} {} seed={} runs={} distinct_nontrivial={} steps={} sim_s={:.1} wall_s={:.1} violations={} exit={}",
         check.property, o.tier.name(), o.seed, evaluations, distinct, steps, sim_ms as f64 / 1000.0, wall, n_viol, exit
     );
+    stop_watchdog.store(true, std::sync::atomic::Ordering::Relaxed);
+    exit
+    })
+    ;
     exit
 }
 
